@@ -84,3 +84,75 @@ Definition valid_asset (s : string) : bool :=
                len_between 0 16 body && asset_tail_suffix rest)
   | [] => false
   end.
+
+(* ---------------------------------------------------------------- portions: machine.ParsePortionSpecific
+     ^([0-9]+)(?:[.]([0-9]+))?[%]$        value = integral.fractional / 100
+     ^([0-9]+)\s?[/]\s?([0-9]+)$          value = numerator / denominator; a zero denominator is an error
+   (the range check 0..1 is NewPortionSpecific's: Sem.q_in_unit) *)
+From Coq Require Import ZArith QArith.
+Definition digit_val (c : ascii) : Z := Z.of_nat (nat_of_ascii c - 48).
+Definition digits_val (l : list ascii) : Z := fold_left (fun v c => (v * 10 + digit_val c)%Z) l 0%Z.
+Definition is_space (c : ascii) : bool :=
+  let n := nat_of_ascii c in Nat.eqb n 32 || Nat.eqb n 9 || Nat.eqb n 10 || Nat.eqb n 12 || Nat.eqb n 13.
+Definition skip_one_space (l : list ascii) : list ascii :=
+  match l with c :: r => if is_space c then r else l | [] => [] end.
+
+(* a term of the fraction form as big.Rat.SetString reads it (base 0): more than one digit with a leading 0 is OCTAL
+   (05/010 = 5/8, 08/9 is an error); with [octal = false]: the decimal reading one would expect (finding KF-C27-portion-octal) *)
+Definition octal_val (l : list ascii) : Z := fold_left (fun v c => (v * 8 + digit_val c)%Z) l 0%Z.
+Definition frac_term (octal : bool) (l : list ascii) : option Z :=
+  match l with
+  | z :: (_ :: _) as r =>
+      if octal && is_char 48 z
+      then if forallb (fun c => (digit_val c <? 8)%Z) r then Some (octal_val r) else None
+      else Some (digits_val l)
+  | _ => Some (digits_val l)
+  end.
+
+Definition parse_portion_gen (octal : bool) (s : string) : option Q :=
+  let (ds1, rest) := span is_digit (chars s) in
+  match ds1 with
+  | [] => None
+  | _ =>
+      match rest with
+      | [c] => if is_char 37 c then Some (Qmake (digits_val ds1) 100) else None                      (* 12% *)
+      | c :: r =>
+          if is_char 46 c then                                                                          (* 12.5% *)
+            let (ds2, rest2) := span is_digit r in
+            match ds2, rest2 with
+            | _ :: _, [p] => if is_char 37 p
+                             then Some (Qmake (digits_val (ds1 ++ ds2)) (Z.to_pos (100 * 10 ^ Z.of_nat (List.length ds2))))
+                             else None
+            | _, _ => None
+            end
+          else                                                                                          (* 1/2, 1 / 2 *)
+            match skip_one_space rest with
+            | sl :: r2 =>
+                if is_char 47 sl then
+                  let (ds2, rest2) := span is_digit (skip_one_space r2) in
+                  match ds2, rest2 with
+                  | _ :: _, [] =>
+                      match frac_term octal ds1, frac_term octal ds2 with
+                      | Some n, Some d => if (d =? 0)%Z then None else Some (Qmake n (Z.to_pos d))
+                      | _, _ => None
+                      end
+                  | _, _ => None
+                  end
+                else None
+            | [] => None
+            end
+      | [] => None
+      end
+  end.
+
+(* the code as it is (machine.ParsePortionSpecific) and the decimal reading *)
+Definition parse_portion : string -> option Q := parse_portion_gen true.
+Definition parse_portion_dec : string -> option Q := parse_portion_gen false.
+
+Example parse_portion_zero_den : parse_portion "1/0" = None /\ parse_portion "0/0" = None /\ parse_portion "7 / 00" = None.
+Proof. repeat split; reflexivity. Qed.
+Example parse_portion_forms :
+  parse_portion "1/2" = Some (1 # 2) /\ parse_portion "1 / 2" = Some (1 # 2) /\ parse_portion "1  /2" = None /\
+  parse_portion "12.5%" = Some (125 # 1000) /\ parse_portion "100%" = Some (100 # 100) /\ parse_portion ".5%" = None /\
+  parse_portion "05/010" = Some (5 # 8) /\ parse_portion_dec "05/010" = Some (5 # 10) /\ parse_portion "08/9" = None.
+Proof. repeat split; reflexivity. Qed.
